@@ -255,6 +255,7 @@ type HarnessReport struct {
 	CrossChecked  int               `json:"solver_crosscheck"`
 	Disagreements int               `json:"solver_disagreements"`
 	InitFail      map[string]string `json:"init_incomplete,omitempty"`
+	ForkHist      map[string]int    `json:"-"`
 }
 
 type ExploreOpts struct {
@@ -262,6 +263,10 @@ type ExploreOpts struct {
 	MaxPaths int
 	Deadline time.Duration
 	Verbose  bool
+	// Grace > 0: exploration stops this long after the first violation that is not listed in Known ("site|class",
+	// class "*" = any) - a violated property needs no exhaustive exploration. Never applies to twins.
+	Grace time.Duration
+	Known map[string]bool
 }
 
 // Explore runs the harness over all decision prefixes.
@@ -282,6 +287,7 @@ func Explore(prog *ssa.Program, hpkg *ssa.Package, cfg *Config, opts ExploreOpts
 
 	var wg sync.WaitGroup
 	var firstErr error
+	var graceStart time.Time
 	for i := 0; i < opts.Workers; i++ {
 		wg.Add(1)
 		go func(id int) {
@@ -321,6 +327,12 @@ func Explore(prog *ssa.Program, hpkg *ssa.Package, cfg *Config, opts ExploreOpts
 				active--
 				rep.Paths++
 				rep.Forks += res.Forks
+				for _, fs := range res.ForkSites {
+					if rep.ForkHist == nil {
+						rep.ForkHist = map[string]int{}
+					}
+					rep.ForkHist[fs]++
+				}
 				rep.Asserts += res.Asserts
 				rep.Discharged += res.Discharged
 				switch res.End {
@@ -357,6 +369,10 @@ func Explore(prog *ssa.Program, hpkg *ssa.Package, cfg *Config, opts ExploreOpts
 					if !seenViol[key] {
 						seenViol[key] = true
 						rep.Violations = append(rep.Violations, v)
+						if opts.Grace > 0 && graceStart.IsZero() && !strings.HasSuffix(cfg.Entry, "_twin") &&
+							!opts.Known[key] && !opts.Known[v.Site+"|*"] && !opts.Known[v.Site+"|"] {
+							graceStart = time.Now()
+						}
 					}
 				}
 				if len(rep.Samples) < 6 && res.Sample != "" {
@@ -370,6 +386,11 @@ func Explore(prog *ssa.Program, hpkg *ssa.Package, cfg *Config, opts ExploreOpts
 				if opts.Deadline > 0 && time.Since(t0) > opts.Deadline {
 					stop = true
 					rep.Incomplete = true
+				}
+				if !graceStart.IsZero() && time.Since(graceStart) > opts.Grace && !stop {
+					stop = true
+					rep.Incomplete = true
+					rep.Reasons["stopped: grace period after the first new violation"]++
 				}
 				if opts.Verbose && rep.Paths%200 == 0 {
 					fmt.Fprintf(os.Stderr, "  [%s] paths=%d queue=%d active=%d viol=%d\n", cfg.Entry, rep.Paths, len(queue), active, len(rep.Violations))
